@@ -8,6 +8,20 @@
    "__init__.py";  [module_path pkg rel] = _filepath_to_python_module;  [py_find es parts] = the file
    Python's import system loads for the dotted name [parts] when searching directory [es]. *)
 From DJC Require Import Lib.Base Discover.Model Discover.Proofs.
+From DJC Require Gen.C20.
+
+(* ---------------- source anchors (Gen/C20.v is regenerated from /repo on every run) ----------------
+   The literals of _search_dirs, _filepath_to_python_module and get_component_files the model was written for. *)
+Example search_dirs_anchor : Gen.C20.search_dirs_strs = [[USC]; INIT_PY; [USC]] /\ Gen.C20.search_dirs_ints = [].
+Proof. split; reflexivity. Qed.
+Example to_module_anchor :
+  Gen.C20.to_module_strs = [[110; 116]%N; []; [DOT]; [DOT]; DOT_INIT] /\ Gen.C20.to_module_ints = [9%Z] /\
+  length DOT_INIT = 9.
+Proof. repeat split; reflexivity. Qed.
+Example get_files_anchor :
+  Gen.C20.get_files_strs = [[42; 42; 47; 42]%N; [42; 42; 47; 42]%N; [66; 65; 83; 69; 95; 68; 73; 82]%N; DOTDOT] /\
+  Gen.C20.get_files_ints = [].
+Proof. split; reflexivity. Qed.
 
 (* ---------------- selection ---------------- *)
 
